@@ -319,6 +319,35 @@ def expectedPackageVars : List (String × String × String) := [
   ("rules.go", "SpecifiedRules", "slice")
 ]
 
+/-- The warm-up premise of `prePublication` for the lazy initialisers: `NewSchema` reaches — and thereby initialises — every
+type through EVERY kind of edge: initial types and directive argument types (`NewSchema`), list / non-null inner types,
+members of unions and implementations of interfaces, interfaces of objects, and for objects AND interfaces both the field
+types and the ARGUMENT types of every field, and the field types of input objects. An edge kind that is no longer walked
+leaves types (input objects with thunk field maps, say) to be initialised by the first requests, concurrently. -/
+def expectedSchemaWalk : List (String × String × String) := [
+  ("NewSchema", "", "arg.Type"),
+  ("NewSchema", "", "ttype"),
+  ("Schema.AppendType", "", "objectType"),
+  ("typeMapReducer", "*InputObject", "field.Type"),
+  ("typeMapReducer", "*Interface", "arg.Type"),
+  ("typeMapReducer", "*Interface", "field.Type"),
+  ("typeMapReducer", "*List", "objectType.OfType"),
+  ("typeMapReducer", "*NonNull", "objectType.OfType"),
+  ("typeMapReducer", "*Object", "arg.Type"),
+  ("typeMapReducer", "*Object", "field.Type"),
+  ("typeMapReducer", "*Object", "innerObjectType"),
+  ("typeMapReducer", "*Union,*Interface", "innerObjectType")
+]
+
+/-- Package functions called while a mutex is held, as read in /repo; `sync.Mutex` is not re-entrant, so none of them (nor
+anything they call) may lock the same mutex again. -/
+def expectedHeldCalls : List (String × String × String) := [
+  ("Plan.abstractAlternative", "Plan.abstractMu", "Plan.planMergedSelectionsForType")
+]
+
+def noReentrantLocking (held reentrant : List (String × String × String)) : Bool :=
+  reentrant.isEmpty && held == expectedHeldCalls
+
 def sitesRespectDiscipline (lockFacts fieldAccesses : List (String × String × String × String))
     (atomicFields : List (String × String × String)) (mutexFields : List (String × String))
     (calls : List (String × String)) : Bool :=
